@@ -30,7 +30,6 @@ from golem.serializers.serializer import Serializer
 from golem.utilities.data_structures import UniqueList
 
 REQ = ['Serial.GraphCodec']
-PRE = 'From GolemV Require Import Serial.Json.\nLocal Open Scope nat_scope.'
 
 FN_GRAPH = 'fun c => match c with (h, g, o) => agree_graph h g o :: holds_graph h g o end'
 K_GRAPH = 5
@@ -56,7 +55,54 @@ IND_CLAUSES = ['the saved individual (or its graph) was changed by saving',
 # ------------------------------------------------------------------------------------------
 # python value -> Coq json term
 # ------------------------------------------------------------------------------------------
-def c_json(v):
+# frequent strings are printed as Coq constants (defined in the model / in PRE): elaborating string
+# literals dominates the cost of a case file
+CONST = {
+    '_class_path': 'CP', 'golem.core.dag.linked_graph_node/LinkedGraphNode': 'node_path',
+    'golem.core.dag.linked_graph/LinkedGraph': 'linked_path',
+    'golem.core.dag.graph_delegate/GraphDelegate': 'delegate_path',
+    'golem.core.dag.linked_graph/LinkedGraph._empty_postprocess': 'postproc_path',
+    'golem.core.optimisers.opt_history_objects.individual/Individual': 'individual_path',
+    'golem.core.optimisers.opt_history_objects.parent_operator/ParentOperator': 'parent_op_path',
+    'golem.core.optimisers.fitness.fitness/SingleObjFitness': 'single_fit_path',
+    'golem.core.optimisers.fitness.multi_objective_fitness/MultiObjFitness': 'multi_fit_path',
+}
+KEYS = ['_nodes_from', 'content', 'uid', '_nodes', '_postprocess_nodes', 'operator', 'name', 'params', 'fitness',
+        'graph', 'metadata', 'native_generation', 'parent_operator', 'operators', 'parent_individuals', 'type_',
+        '_values', '_weights', 'wvalues', 'extra', 'three', 'computation_time_in_seconds', 'evaluation',
+        'scaling', 'mutation', 'crossover', 'single_add', 'single_drop', 'one_point', 'subtree', 'selection']
+for _i, _k in enumerate(KEYS):
+    CONST[_k] = 'k%d_' % _i
+PRE = ('From GolemV Require Import Serial.Json.\nLocal Open Scope nat_scope.\n' +
+       '\n'.join('Definition k%d_ : string := %s.' % (i, c_str(k)) for i, k in enumerate(KEYS)))
+
+
+class Em:
+    """collects `let` bindings for sub-terms that occur more than once in a case"""
+
+    def __init__(self):
+        self.names = {}
+        self.order = []
+
+    def sh(self, term):
+        if len(term) <= 28:
+            return term
+        name = self.names.get(term)
+        if name is None:
+            name = 'z%d_' % len(self.names)
+            self.names[term] = name
+            self.order.append((name, term))
+        return name
+
+    def wrap(self, body):
+        return '(%s %s)' % (' '.join('let %s := %s in' % (n, t) for n, t in self.order), body)
+
+
+def cs(s):
+    return CONST.get(s) or c_str(s)
+
+
+def c_json(v, em):
     if v is None:
         return 'JNull'
     if v is True or v is False:
@@ -64,41 +110,41 @@ def c_json(v):
     if isinstance(v, (int, float)):
         return '(JNum %s)' % c_Q(v)
     if isinstance(v, str):
-        return '(JStr %s)' % c_str(v)
+        return '(JStr %s)' % cs(v)
     if isinstance(v, (list, tuple)):
-        return '(JArr %s)' % c_list([c_json(x) for x in v], 'json')
+        return em.sh('(JArr %s)' % c_list([c_json(x, em) for x in v], 'json'))
     if isinstance(v, dict):
-        return '(JObj %s)' % c_kv(v)
+        return em.sh('(JObj %s)' % c_kv(v, em))
     raise TypeError('not a JSON-like value: %r' % (v,))
 
 
-def c_kv(d):
+def c_kv(d, em):
     for k in d:
         assert isinstance(k, str), k
-    return c_list(['(%s, %s)' % (c_str(k), c_json(x)) for k, x in d.items()], '(string * json)')
+    return em.sh(c_list(['(%s, %s)' % (cs(k), c_json(x, em)) for k, x in d.items()], '(string * json)'))
 
 
 def c_nats(l):
     return c_list([str(int(x)) for x in l], 'nat')
 
 
-def c_cell(cell):
+def c_cell(cell, em):
     if cell is None:
         return 'NoneObj'
     uid, content, parents, uniq = cell
-    return '(Obj (mkNode %s %s %s %s))' % (c_str(uid), c_kv(content), c_nats(parents), c_bool(uniq))
+    return em.sh('(Obj (mkNode %s %s %s %s))' % (cs(uid), c_kv(content, em), c_nats(parents), c_bool(uniq)))
 
 
-def c_heap(cells):
-    return c_list([c_cell(c) for c in cells], 'cell')
+def c_heap(cells, em):
+    return em.sh(c_list([c_cell(c, em) for c in cells], 'cell'))
 
 
 def c_graph(kind, refs):
     return '(mkGraph %s %s)' % ('GDelegate' if kind == 'opt' else 'GLinked', c_nats(refs))
 
 
-def c_ojson(tree):
-    return '(@None json)' if tree is None else '(Some %s)' % c_json(tree)
+def c_ojson(tree, em):
+    return '(@None json)' if tree is None else '(Some %s)' % c_json(tree, em)
 
 
 # ------------------------------------------------------------------------------------------
@@ -245,16 +291,17 @@ def observe_graph(spec):
 
 
 def graph_case(spec, h, o, tamper=False):
+    em = Em()
     oj = o['json']
     if tamper:     # canary: a wrong uid in the observed JSON
         oj = json.loads(json.dumps(oj).replace(spec['nodes'][0]['uid'], 'WRONG'))
     loaded = '(@None (list cell * graph))'
     if o['loaded'] is not None:
-        loaded = '(Some (%s, %s))' % (c_heap(o['loaded'][0]), c_graph(spec['kind'], o['loaded'][1]))
+        loaded = '(Some (%s, %s))' % (c_heap(o['loaded'][0], em), c_graph(spec['kind'], o['loaded'][1]))
     obs = '(mkGObs %s %s %s %s %s %s %s)' % (
-        c_ojson(oj), c_heap(o['after']), loaded, c_ojson(o['resave']), c_bool(o['text_same']),
+        c_ojson(oj, em), c_heap(o['after'], em), loaded, c_ojson(o['resave'], em), c_bool(o['text_same']),
         c_bool(o['descid_same']), c_bool(o['eq'] and o['typed_same']))
-    return '(%s, %s, %s)' % (c_heap(h), c_graph(spec['kind'], spec['order']), obs)
+    return em.wrap('(%s, %s, %s)' % (c_heap(h, em), c_graph(spec['kind'], spec['order']), obs))
 
 
 def has_cycle(spec):
@@ -414,51 +461,65 @@ def seq_kind(x):
     return 'Tuple' if isinstance(x, tuple) else 'PList' if isinstance(x, list) else None
 
 
-def c_fitness(f):
-    """model term of a fitness object as it is in memory; None if it has an unexpected shape"""
+def rec_fitness(f):
+    """description of a fitness object as it is in memory; None if it has an unexpected shape"""
     if type(f) is SingleObjFitness:
         v = f._values
         if seq_kind(v) is None:
             return None
-        return '(FSingle %s %s)' % (seq_kind(v), c_list([c_opt(x, c_Q, 'Q') for x in v], '(option Q)'))
+        return ('S', seq_kind(v), list(v))
     if type(f) is MultiObjFitness:
         w, v = f._weights, f.wvalues
         if seq_kind(w) is None or seq_kind(v) is None:
             return None
-        return '(FMulti %s %s %s %s)' % (seq_kind(w), seq_kind(v), c_list([c_Q(x) for x in w], 'Q'),
-                                         c_list([c_Q(x) for x in v], 'Q'))
+        return ('M', seq_kind(w), seq_kind(v), list(w), list(v))
     return None
 
 
-def c_pop(po):
+def rec_pop(po):
     if po is None:
-        return '(@None parent_op)'
+        return 'none'
     if type(po) is not ParentOperator or seq_kind(po.operators) is None or seq_kind(po.parent_individuals) is None:
         return None
     ps = []
     for p in po.parent_individuals:
         if p is None:
-            ps.append('PNoneInd')
+            ps.append(('N', ''))
         elif isinstance(p, str):
-            ps.append('(PUid %s)' % c_str(p))
+            ps.append(('U', p))
         elif type(p) is Individual:
-            ps.append('(PLive %s)' % c_str(p.uid))
+            ps.append(('L', p.uid))
         else:
             return None
-    return '(Some (mkPO %s %s %s %s %s %s))' % (
-        c_str(po.type_), seq_kind(po.operators), c_list([c_json(x) for x in po.operators], 'json'),
-        seq_kind(po.parent_individuals), c_list(ps, 'pind'), c_str(po.uid))
+    return (po.type_, seq_kind(po.operators), copy.deepcopy(list(po.operators)), seq_kind(po.parent_individuals), ps, po.uid)
 
 
-def c_individual(ind, kind, refs):
-    f, po = c_fitness(ind.fitness), c_pop(ind.parent_operator)
+def rec_individual(ind):
+    f, po = rec_fitness(ind.fitness), rec_pop(ind.parent_operator)
     if f is None or po is None or not isinstance(ind.metadata, dict):
         return None
     ng = ind.native_generation
     if not (ng is None or (isinstance(ng, int) and not isinstance(ng, bool))):
         return None
-    return '(mkInd %s %s %s %s %s %s)' % (f, c_graph(kind, refs), c_kv(ind.metadata), c_opt(ng, c_Z, 'Z'), po,
-                                           c_str(ind.uid))
+    return {'fitness': f, 'metadata': copy.deepcopy(ind.metadata), 'native': ng, 'pop': po, 'uid': ind.uid}
+
+
+def c_individual(rec, kind, refs, em):
+    f = rec['fitness']
+    if f[0] == 'S':
+        ft = '(FSingle %s %s)' % (f[1], c_list([c_opt(x, c_Q, 'Q') for x in f[2]], '(option Q)'))
+    else:
+        ft = '(FMulti %s %s %s %s)' % (f[1], f[2], c_list([c_Q(x) for x in f[3]], 'Q'), c_list([c_Q(x) for x in f[4]], 'Q'))
+    po = rec['pop']
+    if po == 'none':
+        pt = '(@None parent_op)'
+    else:
+        tag = {'N': 'PNoneInd', 'U': '(PUid %s)', 'L': '(PLive %s)'}
+        ps = [tag[k] if k == 'N' else tag[k] % cs(u) for k, u in po[4]]
+        pt = em.sh('(Some (mkPO %s %s %s %s %s %s))' % (cs(po[0]), po[1], c_list([c_json(x, em) for x in po[2]], 'json'),
+                                                     po[3], c_list(ps, 'pind'), cs(po[5])))
+    return em.sh('(mkInd %s %s %s %s %s %s)' % (em.sh(ft), c_graph(kind, refs), c_kv(rec['metadata'], em),
+                                               c_opt(rec['native'], c_Z, 'Z'), pt, cs(rec['uid'])))
 
 
 CMP = [lambda a, b: a == b, lambda a, b: a < b, lambda a, b: a > b, lambda a, b: a <= b, lambda a, b: a >= b,
@@ -470,14 +531,14 @@ def observe_individual(spec, via_methods):
     kind = spec['graph']['kind']
     h = snap_nodes(objs)
     refs = spec['graph']['order']
-    ind_term = c_individual(ind, kind, refs)
+    ind_term = rec_individual(ind)
     t_before = (typed_snapshot(objs), typed(ind.metadata), id(ind.graph), id(ind.fitness), id(ind.parent_operator),
                 [(p.uid, id(p)) for p in parents], tuple(sorted(vars(ind))))
     o = {'json': None, 'loaded': None, 'resave': None, 'text_same': False, 'descid_same': False,
          'cmp_raised': False, 'cmp_equal': False, 'hash_raised': False, 'hash_same': False}
     r = _try(lambda: ind.save() if via_methods else dumps(ind))
     o['after_heap'] = snap_nodes(objs)
-    o['after'] = c_individual(ind, kind, refs)
+    o['after'] = rec_individual(ind)
     o['typed_same'] = ((typed_snapshot(objs), typed(ind.metadata), id(ind.graph), id(ind.fitness),
                         id(ind.parent_operator), [(p.uid, id(p)) for p in parents], tuple(sorted(vars(ind)))) == t_before)
     if r[0] == 'ok':
@@ -488,9 +549,9 @@ def observe_individual(spec, via_methods):
         nodes = observe_loaded_graph(loaded.graph, type(ind.graph)) if loaded is not None else None
         if nodes is not None:
             base = len(objs)
-            lterm = c_individual(loaded, kind, [base + i for i in range(len(nodes))])
-            if lterm is not None:
-                o['loaded'] = (snap_nodes(nodes, base), lterm)
+            lrec = rec_individual(loaded)
+            if lrec is not None:
+                o['loaded'] = (snap_nodes(nodes, base), lrec, [base + i for i in range(len(nodes))])
             r2 = _try(lambda: loaded.save() if via_methods else dumps(loaded))
             if r2[0] == 'ok':
                 o['resave'] = json.loads(r2[1])
@@ -511,19 +572,23 @@ def observe_individual(spec, via_methods):
     return h, ind_term, o
 
 
-def ind_case(spec, h, ind_term, o, tamper=False):
+def ind_case(spec, h, ind_rec, o, tamper=False):
+    em = Em()
     kind = spec['graph']['kind']
+    refs = spec['graph']['order']
     oj = o['json']
     if tamper:
         oj = json.loads(json.dumps(oj).replace(spec['uid'], 'WRONG'))
     loaded = '(@None (list cell * individual))'
     if o['loaded'] is not None:
-        loaded = '(Some (%s, %s))' % (c_heap(o['loaded'][0]), o['loaded'][1])
+        loaded = '(Some (%s, %s))' % (c_heap(o['loaded'][0], em), c_individual(o['loaded'][1], kind, o['loaded'][2], em))
+    it = c_individual(ind_rec, kind, refs, em)
     obs = '(mkIObs %s %s %s %s %s %s %s %s %s %s %s)' % (
-        c_ojson(oj), c_heap(o['after_heap']), o['after'] or ind_term, loaded, c_ojson(o['resave']),
+        c_ojson(oj, em), c_heap(o['after_heap'], em), c_individual(o['after'] or ind_rec, kind, refs, em), loaded,
+        c_ojson(o['resave'], em),
         c_bool(o['text_same']), c_bool(o['descid_same']), c_bool(o['cmp_raised']), c_bool(o['cmp_equal']),
         c_bool(o['hash_raised']), c_bool(o['hash_same'] and o['typed_same'] and o['after'] is not None))
-    return '(%s, %s, %s)' % (c_heap(h), ind_term, obs)
+    return em.wrap('(%s, %s, %s)' % (c_heap(h, em), it, obs))
 
 
 DY = [0.0, 1.0, -1.0, 0.5, 1.5, 2.0, 0.25, -3.75, 100.0, 2.0 ** -20]
@@ -682,16 +747,18 @@ def run_json_load(ctx):
         if loaded == 'unexpected':
             ctx.error('json-load', 'decoder returned an object that is not a graph for %s' % what)
             continue
-        lt = '(@None (list cell))' if loaded is None else '(Some %s)' % c_heap(loaded[0])
+        em = Em()
+        lt = '(@None (list cell))' if loaded is None else '(Some %s)' % c_heap(loaded[0], em)
         g = c_graph(spec['kind'], loaded[1] if loaded else [])
-        cases.append('(%s, %s, %s, %s)' % (c_json(t), lt, g, c_ojson(resave)))
+        cases.append(em.wrap('(%s, %s, %s, %s)' % (c_json(t, em), lt, g, c_ojson(resave, em))))
         meta.append((what, spec, t, loaded))
     # canary: claim one more node than was loaded
     graph, objs = build_graph(specs[0])
     tree = json.loads(dumps(graph))
     loaded, resave = observe_load(tree, specs[0]['kind'])
-    cases.append('(%s, (Some %s), %s, %s)' % (c_json(tree), c_heap(loaded[0] + [('zz', {}, (), True)]),
-                                              c_graph(specs[0]['kind'], loaded[1]), c_ojson(resave)))
+    em = Em()
+    cases.append(em.wrap('(%s, (Some %s), %s, %s)' % (c_json(tree, em), c_heap(loaded[0] + [('zz', {}, (), True)], em),
+                                                      c_graph(specs[0]['kind'], loaded[1]), c_ojson(resave, em))))
     ctx.canaries += 1
     fn = ('fun c => match c with (j, frag, g, rs) => [match load_graph [] j, frag with '
           '| Ok (h, g1), Some f => heap_eqb h f && graph_eqb g1 g && res_json_eqb (fst (save_graph h g1)) rs '
@@ -757,8 +824,8 @@ def view_key(v):
     return json.dumps([(a, b, c, list(d), e) for a, b, c, d, e in v], sort_keys=True)
 
 
-def c_view(v):
-    return c_list(['(mkV %s %s %s %s %s)' % (c_str(u), c_str(nm), c_json(pr), c_nats(ps), c_bool(uq))
+def c_view(v, em):
+    return c_list([em.sh('(mkV %s %s %s %s %s)' % (cs(u), cs(nm), c_json(pr, em), c_nats(ps), c_bool(uq)))
                    for u, nm, pr, ps, uq in v], 'vnode')
 
 
@@ -881,26 +948,24 @@ def lock_run(spec, ops, via_individual):
 
 
 def lock_case(vo, vl, steps, tamper=False):
-    names, defs = {}, []
-
-    def ref(v):
-        if v is None:
-            return '(@None view)'
-        k = view_key(v)
-        if k not in names:
-            names[k] = 'v%d' % len(names)
-            defs.append('let %s := %s in' % (names[k], c_view(v)))
-        return '(Some %s)' % names[k]
+    em = Em()
+    names = {}
 
     def plain(v):
-        return ref(v)[6:-1]
+        k = view_key(v)
+        if k not in names:
+            names[k] = em.sh(c_view(v, em) + ' ')      # the blank keeps short views shareable as well
+        return names[k]
+
+    def ref(v):
+        return '(@None view)' if v is None else '(Some %s)' % plain(v)
     a, b = plain(vo), plain(vl)
     ss = []
     for i, (op, x, y) in enumerate(steps):
         if tamper and i == len(steps) - 1 and y is not None:
             y = y[:-1] if len(y) else y + (('t', 't', None, (), True),)
         ss.append('mkStep %s %s %s' % (c_op(op), ref(x), ref(y)))
-    return '(%s (%s, %s, %s))' % (' '.join(defs), a, b, c_list(ss, 'lstep'))
+    return em.wrap('(%s, %s, %s)' % (a, b, c_list(ss, 'lstep')))
 
 
 def gen_lock_specs(ctx):
